@@ -97,9 +97,9 @@ func NewCluster(cfg *Config, log *EventLog) (*Cluster, error) {
 	}
 	mk := func(name, role, masterOf string) (*Node, error) {
 		lc := net.ListenConfig{}
-		if cfg.SmallBuf {
+		if cfg.BufSize() > 0 {
 			lc.Control = func(network, address string, c syscall.RawConn) error {
-				return c.Control(func(fd uintptr) { _ = unix.SetsockoptInt(int(fd), unix.SOL_SOCKET, unix.SO_RCVBUF, 8192) })
+				return c.Control(func(fd uintptr) { _ = unix.SetsockoptInt(int(fd), unix.SOL_SOCKET, unix.SO_RCVBUF, cfg.BufSize()) })
 			}
 		}
 		ln, err := lc.Listen(context.Background(), "tcp", "127.0.0.1:0")
